@@ -1,1 +1,30 @@
-//! verif hook (child module): see /verif/hooks/verif.rs
+//! verif hook (child module of `try_buffered`)
+use super::*;
+
+impl<St> TryBufferedOrdered<St>
+where
+    St: TryStream,
+    St::Ok: TryFuture,
+{
+    pub fn verif_from_parts(stream: Option<St>, q: FuturesOrderedBounded<St::Ok>) -> Self {
+        Self { stream, in_progress_queue: q }
+    }
+    pub fn verif_stream_present(&self) -> bool {
+        self.stream.is_some()
+    }
+    pub fn verif_queue(&mut self) -> &mut FuturesOrderedBounded<St::Ok> {
+        &mut self.in_progress_queue
+    }
+}
+
+impl<St: TryStream> TryBufferUnordered<St> {
+    pub fn verif_from_parts(stream: Option<St>, q: FuturesUnorderedBounded<St::Ok>) -> Self {
+        Self { stream, in_progress_queue: q }
+    }
+    pub fn verif_stream_present(&self) -> bool {
+        self.stream.is_some()
+    }
+    pub fn verif_queue(&mut self) -> &mut FuturesUnorderedBounded<St::Ok> {
+        &mut self.in_progress_queue
+    }
+}
